@@ -4,9 +4,11 @@ arms, and `Satisfaction::thresh` in `src/miniscript/satisfy/mod.rs`), stated ove
 model `satDissat` (which does not model them as panics).
 
 * `assertsOk c ms` — no assert fires anywhere in the tree;
-* `asserts_fail_mall` — a well-typed script on which an assert fires in malleable mode;
-* `asserts_hold_nonmall` — in non-malleable mode (with the `Threshold` invariant `k ≤ n`) no
-  assert fires; `asserts_exA_silent` — the script that made `or_d`'s assert fire before the
+* `asserts_hold` — for every well-typed script (with the `Threshold` invariant `k ≤ n`), every
+  asset set and BOTH modes no assert fires: in malleable mode the asserts are disabled
+  (`assertsOk_mall`), in non-malleable mode by the invariant `inv_of_typed`
+  (`asserts_hold_nonmall`); `asserts_exB_silent` — the script on which the formerly
+  unconditional `or_d` assert fired in malleable mode; `asserts_exA_silent` — the script that made `or_d`'s assert fire before the
   `j:` dissatisfaction was fixed (`Terminal::NonZero` now dissatisfies with one empty push).
 
 Auxiliary definitions and lemmas live in the sub-namespace `MsVerif.SatSpec.Asserts`.
@@ -42,16 +44,17 @@ def threshAssertOk (k : Nat) (dissats sats : List Sat) : Bool :=
 
 mutual
 /-- `true` iff none of the satisfier's `assert!`s fires anywhere in the tree:
-* `Terminal::OrB`: `assert!(!l_dis.has_sig); assert!(!r_dis.has_sig);`
-* `Terminal::OrC`, `Terminal::OrD`: `assert!(!l_dis.has_sig);`
+* `Terminal::OrB`: `assert!(malleable || !l_dis.has_sig); assert!(malleable || !r_dis.has_sig);`
+* `Terminal::OrC`, `Terminal::OrD`: `assert!(malleable || !l_dis.has_sig);`
+  (since commit 139fcb34; before it the asserts were unconditional and fired in malleable mode)
 * `Terminal::Thresh` with `k ≠ n` in non-malleable mode (`Satisfaction::thresh`):
   `for sat in &ret_stack { assert!(!sat.has_sig); }` in the UNAVAILABLE branch. -/
 def assertsOk (c : SatCfg) : Ms → Bool
   | .orB l r =>
     assertsOk c l && assertsOk c r
-      && !(satDissat c l).dissat.hasSig && !(satDissat c r).dissat.hasSig
-  | .orC l r => assertsOk c l && assertsOk c r && !(satDissat c l).dissat.hasSig
-  | .orD l r => assertsOk c l && assertsOk c r && !(satDissat c l).dissat.hasSig
+      && (c.mall || !(satDissat c l).dissat.hasSig) && (c.mall || !(satDissat c r).dissat.hasSig)
+  | .orC l r => assertsOk c l && assertsOk c r && (c.mall || !(satDissat c l).dissat.hasSig)
+  | .orD l r => assertsOk c l && assertsOk c r && (c.mall || !(satDissat c l).dissat.hasSig)
   | .thresh k xs =>
     let sds := satDissats c xs
     assertsOks c xs
@@ -114,8 +117,6 @@ theorem exA_nonMall_signed :
 theorem exB_typed : (typeOf exB).isSome = true := by decide
 
 
-/-- the `Terminal::OrD` assert fires on the well-typed `exB` in malleable mode -/
-theorem asserts_fail_mall : assertsOk cfgB exB = false := by decide
 
 namespace Asserts
 
@@ -710,8 +711,8 @@ theorem dissat_clean_nonmall (c : SatCfg) (hm : c.mall = false) (ms : Ms) (τ : 
 theorem asserts_exA_silent : assertsOk cfgA exA = true := by decide
 
 /-- the same without the `k ≤ n` side condition -/
-def asserts_hold_nonmall_full : Prop :=
-  ∀ (c : SatCfg) (ms : Ms) (τ : Ty), c.mall = false → typeOf ms = some τ → assertsOk c ms = true
+def asserts_hold_full : Prop :=
+  ∀ (c : SatCfg) (ms : Ms) (τ : Ty), typeOf ms = some τ → assertsOk c ms = true
 
 /-- `thresh(2, pk(K0))` (`k > n`, not constructible in Rust): `typeOf` ignores `k`, and the model
 of `Satisfaction::thresh` reads `sat_indices[k]` out of range -/
@@ -722,24 +723,46 @@ theorem exK_facts :
 
 /-- the side condition `threshKOk` cannot be dropped (model artefact: `k > n` is
 unrepresentable in the library) -/
-theorem asserts_hold_nonmall_full_false : ¬ asserts_hold_nonmall_full := by
+theorem asserts_hold_full_false : ¬ asserts_hold_full := by
   intro h
   have hty : typeOf exK = some ((typeOf exK).get (by decide)) := by simp
-  have := h cfgA exK _ rfl hty
+  have := h cfgA exK _ hty
   rw [exK_facts.2.2] at this
   cases this
 
-/-- the unrestricted claim: every well-typed script keeps the asserts silent in both modes -/
-def asserts_hold_full : Prop :=
-  ∀ (c : SatCfg) (ms : Ms) (τ : Ty), typeOf ms = some τ → assertsOk c ms = true
+mutual
+/-- malleable mode: every assert is disabled (`malleable || …`; `thresh_mall` has none) -/
+theorem assertsOk_mall (c : SatCfg) (hm : c.mall = true) : (ms : Ms) → assertsOk c ms = true
+  | .orB l r => by simp [assertsOk, hm, assertsOk_mall c hm l, assertsOk_mall c hm r]
+  | .orC l r => by simp [assertsOk, hm, assertsOk_mall c hm l, assertsOk_mall c hm r]
+  | .orD l r => by simp [assertsOk, hm, assertsOk_mall c hm l, assertsOk_mall c hm r]
+  | .thresh k xs => by simp [assertsOk, hm, assertsOks_mall c hm xs]
+  | .alt x | .swap x | .check x | .dupIf x | .verify x | .nonZero x | .zeroNotEqual x => by
+    simp only [assertsOk]; exact assertsOk_mall c hm x
+  | .andV l r | .andB l r | .orI l r => by
+    simp [assertsOk, assertsOk_mall c hm l, assertsOk_mall c hm r]
+  | .andOr a b z => by
+    simp [assertsOk, assertsOk_mall c hm a, assertsOk_mall c hm b, assertsOk_mall c hm z]
+  | .tru | .fls | .pkK _ | .pkH _ | .rawPkH _ | .after _ | .older _ | .hash _ _
+  | .multi _ _ | .sortedMulti _ _ | .multiA _ _ | .sortedMultiA _ _ => by simp [assertsOk]
+theorem assertsOks_mall (c : SatCfg) (hm : c.mall = true) : (xs : MsList) → assertsOks c xs = true
+  | .nil => by simp [assertsOks]
+  | .cons x xs => by simp [assertsOks, assertsOk_mall c hm x, assertsOks_mall c hm xs]
+end
 
-/-- **Negative part.**  The unrestricted claim is false: `exB` is well-typed (`k ≤ n` holds
-trivially, no `thresh`) and the `Terminal::OrD` assert fires on it in MALLEABLE mode. -/
-theorem asserts_hold_full_false : ¬ asserts_hold_full := by
-  intro h
-  have hty : typeOf exB = some ((typeOf exB).get (by decide)) := by simp
-  have := h cfgB exB _ hty
-  rw [asserts_fail_mall] at this
-  cases this
+/-- **No assert of the satisfier can fire**: every well-typed script (with `k ≤ n` at every
+`thresh`, which `Threshold::new` guarantees), every asset set, BOTH modes. -/
+theorem asserts_hold (c : SatCfg) (ms : Ms) (τ : Ty) (hty : typeOf ms = some τ)
+    (hk : threshKOk ms = true) : assertsOk c ms = true := by
+  cases hm : c.mall
+  · exact asserts_hold_nonmall c hm ms τ hty hk
+  · exact assertsOk_mall c hm ms
+
+/-- the script on which the formerly unconditional `Terminal::OrD` assert fired in malleable
+mode (mixed relative-lock units make the `and_b` dissatisfaction IMPOSSIBLE, `minimum_mall`
+then hands `or_d` a dissatisfaction carrying a signature) is silent now -/
+theorem asserts_exB_silent :
+    assertsOk cfgB exB = true ∧ (satDissat cfgB (.orI (.andB (dl 1) (.alt (dl 4194305)))
+      (.andV (.verify (pk 2)) .fls))).dissat.hasSig = true := by decide
 
 end MsVerif.SatSpec
